@@ -623,6 +623,13 @@ def _s_fresh_graph(eng, st, g):
     return Val(TBool, g.t >= eng.entry_next_gid)
 
 
+@spec('comb_pos', None, ret=TInt)
+def _s_comb_pos(eng, st, c, lst, i, j):
+    """Position of the pair (lst[i], lst[j]), i < j, in c = itertools.combinations(lst, 2) (SMT only, for loop invariants)."""
+    from . import models as _m
+    return Val(TInt, _m.comb_ufs(lst.ty)[2](c.t, ops.to_int(i), ops.to_int(j)))
+
+
 def _n_same_graph(a, b):
     # an old() snapshot is a deep copy that remembers the object it was taken from
     oa = getattr(a, '_pyvc_orig', a)
